@@ -125,6 +125,38 @@ func c08Cases() []c08Case {
 			return fix.IBTPTx(snd.key, w.N.Next(snd.key), &pb.IBTP{From: p1.from, To: p1.to, Index: 2, TimeoutHeight: 3}, fix.GoodProof)
 		})
 	}
+	// Ethereum-style transactions: fine, and refused by each pre-check of the EVM's state
+	// transition (the executor reverts and finalises around them) or failing inside the EVM
+	eth := func(name, key string, funded bool, mk func(w *fix.World, nonce uint64) pb.Transaction) {
+		add("eth/"+name, func(w *fix.World) pb.Transaction {
+			if funded {
+				w.Must(w.Block(fix.Transfer(fix.AdminKeys[0], w.N.Next(fix.AdminKeys[0]), fix.EthKeyAddr(key), "1000000000000000000")))
+			}
+			return mk(w, 0)
+		})
+	}
+	to := fix.Addr(fix.KUser2)
+	eth("transfer", "rich", true, func(w *fix.World, n uint64) pb.Transaction { return fix.EthTx("rich", n, 21000, 10000, to, 7, nil) })
+	eth("sender-cannot-pay-for-the-gas", "poor", false, func(w *fix.World, n uint64) pb.Transaction { return fix.EthTx("poor", n, 21000, 10000, to, 0, nil) })
+	eth("gas-limit-below-intrinsic-gas", "rich", true, func(w *fix.World, n uint64) pb.Transaction { return fix.EthTx("rich", n, 20999, 10000, to, 0, nil) })
+	eth("nonce-ahead-of-the-account", "rich", true, func(w *fix.World, n uint64) pb.Transaction { return fix.EthTx("rich", 1<<40, 21000, 10000, to, 0, nil) })
+	eth("gas-limit-above-the-block-gas-pool", "rich", true, func(w *fix.World, n uint64) pb.Transaction { return fix.EthTx("rich", n, 0x5f5e100*4, 1, to, 0, nil) })
+	eth("value-above-balance", "rich", true, func(w *fix.World, n uint64) pb.Transaction {
+		return fix.EthTx("rich", n, 21000, 10000, to, 2000000000000000000, nil)
+	})
+	eth("zero-gas-price", "rich", true, func(w *fix.World, n uint64) pb.Transaction { return fix.EthTx("rich", n, 21000, 0, to, 1, nil) })
+	eth("create-contract-from-garbage", "rich", true, func(w *fix.World, n uint64) pb.Transaction {
+		return fix.EthTx("rich", n, 200000, 10000, nil, 0, []byte("\xfe\xfe not evm code \x00\x01"))
+	})
+	eth("create-contract-reverting", "rich", true, func(w *fix.World, n uint64) pb.Transaction {
+		return fix.EthTx("rich", n, 200000, 10000, nil, 0, []byte{0x60, 0x00, 0x60, 0x00, 0xfd})
+	})
+	eth("call-built-in-contract-address", "rich", true, func(w *fix.World, n uint64) pb.Transaction {
+		return fix.EthTx("rich", n, 100000, 10000, constant.StoreContractAddr.Address(), 0, []byte("\x60\xfe\x47\xb1garbage"))
+	})
+	eth("out-of-gas-in-creation", "rich", true, func(w *fix.World, n uint64) pb.Transaction {
+		return fix.EthTx("rich", n, 53001, 10000, nil, 0, []byte{0x5b, 0x60, 0x00, 0x56})
+	})
 	// payload length of each base (computed once on a scratch world)
 	scratch := fix.BaseWorld(fix.Options{})
 	defer scratch.R.Close()
